@@ -1,5 +1,6 @@
 //! One module per property.
 pub mod c01;
+pub mod c02;
 pub mod c04;
 pub mod c05;
 pub mod c09;
@@ -13,6 +14,7 @@ use crate::engine::report::Report;
 pub fn run(id: &str, tier: &str) -> Option<i32> {
     let r = match id {
         "C01" => { let r = Report::new(id, tier, "model_checking"); c01::check(&r); r }
+        "C02" => { let r = Report::new(id, tier, "model_checking"); c02::check(&r); r }
         "C04" => { let r = Report::new(id, tier, "model_checking"); c04::check(&r); r }
         "C05" => { let r = Report::new(id, tier, "model_checking"); c05::check(&r); r }
         "C09" => { let r = Report::new(id, tier, "model_checking"); c09::check(&r); r }
@@ -26,6 +28,7 @@ pub fn run(id: &str, tier: &str) -> Option<i32> {
 pub fn replay(id: &str, path: &str) -> Option<i32> {
     match id {
         "C01" => Some(c01::replay(path)),
+        "C02" => Some(c02::replay(path)),
         "C04" => Some(c04::replay(path)),
         "C05" => Some(c05::replay(path)),
         "C09" => Some(c09::replay(path)),
